@@ -69,18 +69,36 @@ def shard(args):
                 mask.reshape(-1)[::2] = True
                 variants = [("slice", lambda a: a[1:]), ("ellipsis-slice", lambda a: a[..., :1]), ("mask", lambda a: a[mask]), ("reshape", lambda a: a.reshape(-1)),
                             ("view", lambda a: a.view()), ("copy", lambda a: a.copy()), ("fancy", lambda a: a[[0, -1]]), ("transpose", lambda a: a.T)]
-                for vn, f in variants:
-                    try:
-                        b = f(arr)
-                        ref = f(np.arange(n_el).reshape(shape))
-                        ok = type(b) is type(arr) and AR.sysof(b) == tuple(system) and isinstance(b, vector.Momentum) == mom and b.shape == ref.shape
-                        if ok:
-                            for n in names:
-                                exp = np.array([elems[i][n] for i in ref.reshape(-1)]).reshape(ref.shape)
-                                ok = ok and np.array_equal(np.asarray(getattr(b, n)), exp)
-                        F.check("C19", f"{vn}/{tag}", ok, dict(type=type(b).__name__, shape=getattr(b, "shape", None)))
-                    except Exception as e:
-                        F.check("C19", f"{vn}/{tag}", False, f"{type(e).__name__}: {str(e)[:150]}")
+                def named_columns(b, ref, what):
+                    """by-name indexing of a derived array (every spelling) is the derived array's own column: values of its elements, its own memory"""
+                    for n in names:
+                        exp = np.array([elems[i][n] for i in ref.reshape(-1)]).reshape(ref.shape)
+                        for sname in [n] + (SYN.get(n, []) if mom else []):
+                            try:
+                                col = b[sname]
+                                okc = type(col) is np.ndarray and col.shape == exp.shape and np.array_equal(col, exp) and (col.size == 0 or np.shares_memory(col, b))
+                                F.check("C19", f"{what}/string-index/{sname}/{tag}", okc, dict(shape=getattr(col, "shape", None), expected_shape=exp.shape, own_memory=bool(col.size == 0 or np.shares_memory(col, b))))
+                            except Exception as e:
+                                F.check("C19", f"{what}/string-index/{sname}/{tag}", False, f"{type(e).__name__}: {str(e)[:150]}")
+
+                def run_variants(phase):
+                    for vn, f in variants:
+                        try:
+                            b = f(arr)
+                            ref = f(np.arange(n_el).reshape(shape))
+                            ok = type(b) is type(arr) and AR.sysof(b) == tuple(system) and isinstance(b, vector.Momentum) == mom and b.shape == ref.shape
+                            if ok:
+                                for n in names:
+                                    exp = np.array([elems[i][n] for i in ref.reshape(-1)]).reshape(ref.shape)
+                                    ok = ok and np.array_equal(np.asarray(getattr(b, n)), exp)
+                            F.check("C19", f"{vn}{phase}/{tag}", ok, dict(type=type(b).__name__, shape=getattr(b, "shape", None)))
+                            if ok:
+                                named_columns(b, ref, f"{vn}{phase}")
+                                if vn == "copy":
+                                    F.check("C19", f"copy{phase}/columns-do-not-alias-the-original/{tag}", not any(np.shares_memory(b[n_], arr) for n_ in b.dtype.names), None)
+                        except Exception as e:
+                            F.check("C19", f"{vn}{phase}/{tag}", False, f"{type(e).__name__}: {str(e)[:150]}")
+                run_variants("")
                 # ---- a coordinate name (or momentum synonym) returns the stored column (same memory)
                 for n in names:
                     spell = [n] + (SYN.get(n, []) if mom else [])
@@ -91,6 +109,8 @@ def shard(args):
                             F.check("C19", f"string-index/{sname}/{tag}", type(col) is np.ndarray and np.array_equal(col, exp) and np.shares_memory(col, arr), type(col).__name__)
                         except Exception as e:
                             F.check("C19", f"string-index/{sname}/{tag}", False, f"{type(e).__name__}: {str(e)[:150]}")
+                # ---- the same derived arrays once the source's columns have been read by name (state left on the instance must not leak into views)
+                run_variants("-after-column-access")
                 # ---- pickle (every protocol) / copy round trips, for C-ordered, transposed, Fortran-ordered and strided memory layouts
                 memory = [("C", arr)]
                 if len(shape) > 1:
@@ -106,6 +126,9 @@ def shard(args):
                             ok = type(b) is type(a0) and b.dtype == a0.dtype and b.shape == a0.shape and AR.sysof(b) == tuple(system) and \
                                 np.asarray(b).tolist() == np.asarray(a0).tolist()
                             F.check("C19", f"{nm}-roundtrip/{mname}/{tag}", ok, dict(type=type(b).__name__, dtype=str(b.dtype), shape=b.shape))
+                            if ok and b.size:
+                                n0 = b.dtype.names[0]
+                                F.check("C19", f"{nm}-roundtrip/{mname}/named-column-is-own-memory/{tag}", np.shares_memory(b[n0], b) and not np.shares_memory(b[n0], a0) and np.array_equal(b[n0], a0[n0]), None)
                         except Exception as e:
                             F.check("C19", f"{nm}-roundtrip/{mname}/{tag}", False, f"{type(e).__name__}: {str(e)[:150]}")
     # ---- the array form of a vector object
